@@ -185,6 +185,14 @@ def build(o, repo, work, witness=False):
     if rc != 0:
         return False, "goto-cc failed:\n" + out[-3000:], info
     info["goto_cc"] = " ".join(cmd)
+    if o.gi_plain:
+        # plain goto-instrument pass (no --dfcc), e.g. --remove-function-body f: f then returns an arbitrary value per call
+        cmd = ["goto-instrument"] + list(o.gi_plain) + [a, b]
+        rc, out, _ = run(cmd, 600, 12, work)
+        info["goto_instrument"] = " ".join(cmd)
+        if rc != 0 or not os.path.exists(b):
+            return False, "goto-instrument failed:\n" + out[-3000:], info
+        return True, b, info
     if o.enforce or o.replace or o.loops:
         cmd = ["goto-instrument", "--dfcc", o.entry]
         if o.enforce:
